@@ -833,8 +833,11 @@ def vc_set(it=()):
         return it.to_set()
     if hasattr(it, "_vc_iter"):
         return it._vc_iter().to_set()
+    items = list(it)
+    if items and not any(isinstance(e, Sym) for e in items):
+        return set(items)  # a set of concrete values (e.g. keyword names) is a real set
     s = SSet()
-    for e in it:
+    for e in items:
         s.add(e)
     return s
 
@@ -1051,6 +1054,29 @@ def vc_range(*a):
     m = C.fresh("range_len", I)
     C.assume(m == z3.If(n > 0, n, 0))
     return SSeq(m, lambda i: SInt(i), tuple, "range")
+
+
+def vc_zip(*its):
+    """zip of sequences (stops at the shortest): index-wise pairs, iterated in index order"""
+    if not any(isinstance(i, Sym) for i in its):
+        return zip(*its)
+    seqs = []
+    for it in its:
+        if isinstance(it, SSeq):
+            seqs.append((it.n, it.at))
+        elif hasattr(it, "_vc_seq"):
+            seqs.append(it._vc_seq())
+        elif isinstance(it, (list, tuple)):
+            seqs.append((z3.IntVal(len(it)), (lambda i, it=it: _concrete_at(it, i))))
+        else:
+            raise Unsupported(f"zip over {type(it).__name__}")
+    n = C.fresh("zip_len", I)
+    C.assume(z3.And(*[n <= m for m, _ in seqs]), z3.Or(*[n == m for m, _ in seqs]), n >= 0)
+    return SSeq(n, lambda i: tuple(at(i) for _, at in seqs), tuple, "zip")
+
+
+def _concrete_at(seq, i):
+    raise Unsupported("zip of a concrete with a symbolic sequence")
 
 
 def vc_iter(o):
